@@ -2,4 +2,103 @@
 #ifndef VF_CONTRACTS_UTILS_H
 #define VF_CONTRACTS_UTILS_H
 #define RET __CPROVER_return_value
+
+#ifdef VF_UTILS_WRAPPERS
+#include "c_isarray.h"
+/* ------------------------------------------------------------------ thin public wrappers of cJSON_Utils.c
+ * Each static worker is replaced by a *logging view* (arguments and answer recorded in g_uw, answer arbitrary); the wrapper's
+ * enforced contract says: exactly one call of the worker, with the caller's arguments and the case mode the wrapper's name
+ * promises, and the worker's answer is returned unchanged.  Frame: nothing but the log (C20). */
+struct vf_uw_log { const void *a, *b; cJSON_bool cs; const void *ret; size_t calls; } g_uw;
+
+static cJSON *get_item_from_pointer(cJSON * const object, const char * pointer, const cJSON_bool case_sensitive)
+__CPROVER_requires(1)
+__CPROVER_ensures(g_uw.a == object && g_uw.b == pointer && g_uw.cs == case_sensitive && g_uw.ret == RET && g_uw.calls == __CPROVER_old(g_uw.calls) + 1)
+__CPROVER_assigns(g_uw);
+
+static void sort_object(cJSON * const object, const cJSON_bool case_sensitive)
+__CPROVER_requires(1)
+__CPROVER_ensures(g_uw.a == object && g_uw.cs == case_sensitive && g_uw.calls == __CPROVER_old(g_uw.calls) + 1)
+__CPROVER_assigns(g_uw);
+
+static cJSON *merge_patch(cJSON *target, const cJSON * const patch, const cJSON_bool case_sensitive)
+__CPROVER_requires(1)
+__CPROVER_ensures(g_uw.a == target && g_uw.b == patch && g_uw.cs == case_sensitive && g_uw.ret == RET && g_uw.calls == __CPROVER_old(g_uw.calls) + 1)
+__CPROVER_assigns(g_uw);
+
+static cJSON *generate_merge_patch(cJSON * const from, cJSON * const to, const cJSON_bool case_sensitive)
+__CPROVER_requires(1)
+__CPROVER_ensures(g_uw.a == from && g_uw.b == to && g_uw.cs == case_sensitive && g_uw.ret == RET && g_uw.calls == __CPROVER_old(g_uw.calls) + 1)
+__CPROVER_assigns(g_uw);
+
+#define UW_FWD2(a_, b_, cs_) (g_uw.calls == __CPROVER_old(g_uw.calls) + 1 && g_uw.a == (a_) && g_uw.b == (b_) && g_uw.cs == (cs_) && RET == g_uw.ret)
+
+CJSON_PUBLIC(cJSON *) cJSONUtils_GetPointer(cJSON * const object, const char *pointer)
+__CPROVER_requires(1)
+__CPROVER_ensures(UW_FWD2(object, pointer, 0)) /*@C15*/
+__CPROVER_assigns(g_uw);
+CJSON_PUBLIC(cJSON *) cJSONUtils_GetPointerCaseSensitive(cJSON * const object, const char *pointer)
+__CPROVER_requires(1)
+__CPROVER_ensures(UW_FWD2(object, pointer, 1)) /*@C15*/
+__CPROVER_assigns(g_uw);
+CJSON_PUBLIC(cJSON *) cJSONUtils_MergePatch(cJSON *target, const cJSON * const patch)
+__CPROVER_requires(1)
+__CPROVER_ensures(UW_FWD2(target, patch, 0)) /*@C18*/
+__CPROVER_assigns(g_uw);
+CJSON_PUBLIC(cJSON *) cJSONUtils_MergePatchCaseSensitive(cJSON *target, const cJSON * const patch)
+__CPROVER_requires(1)
+__CPROVER_ensures(UW_FWD2(target, patch, 1)) /*@C18*/
+__CPROVER_assigns(g_uw);
+CJSON_PUBLIC(cJSON *) cJSONUtils_GenerateMergePatch(cJSON * const from, cJSON * const to)
+__CPROVER_requires(1)
+__CPROVER_ensures(UW_FWD2(from, to, 0)) /*@C18*/
+__CPROVER_assigns(g_uw);
+CJSON_PUBLIC(cJSON *) cJSONUtils_GenerateMergePatchCaseSensitive(cJSON * const from, cJSON * const to)
+__CPROVER_requires(1)
+__CPROVER_ensures(UW_FWD2(from, to, 1)) /*@C18*/
+__CPROVER_assigns(g_uw);
+CJSON_PUBLIC(void) cJSONUtils_SortObject(cJSON * const object)
+__CPROVER_requires(1)
+__CPROVER_ensures(g_uw.calls == __CPROVER_old(g_uw.calls) + 1 && g_uw.a == object && g_uw.cs == 0) /*@C19*/
+__CPROVER_assigns(g_uw);
+CJSON_PUBLIC(void) cJSONUtils_SortObjectCaseSensitive(cJSON * const object)
+__CPROVER_requires(1)
+__CPROVER_ensures(g_uw.calls == __CPROVER_old(g_uw.calls) + 1 && g_uw.a == object && g_uw.cs == 1) /*@C19*/
+__CPROVER_assigns(g_uw);
+
+/* ------------------------------------------------------------------ cJSONUtils_ApplyPatches[CaseSensitive]  (S: patch array of <= 2 operations)
+ * apply_patch is replaced by a view that records each call in order and answers arbitrarily.  The wrapper must refuse a non-array
+ * with 1 and no call; otherwise apply the operations in document order to the same object with the promised case mode, stop at
+ * the first non-zero status and return it, or return 0 after the last one. */
+struct vf_ap_log { const void *obj[3]; const void *patch[3]; cJSON_bool cs[3]; int ret[3]; size_t calls; } g_ap;
+static int vf_ap_log_ens(const void *o, const void *p, cJSON_bool cs, int r)
+{ if (g_ap.calls < 3) { g_ap.obj[g_ap.calls] = o; g_ap.patch[g_ap.calls] = p; g_ap.cs[g_ap.calls] = cs; g_ap.ret[g_ap.calls] = r; } g_ap.calls++; return 1; }
+static int apply_patch(cJSON *object, const cJSON *patch, const cJSON_bool case_sensitive)
+__CPROVER_requires(patch != NULL)
+__CPROVER_ensures(vf_ap_log_ens(object, patch, case_sensitive, RET))
+__CPROVER_assigns();
+
+/* n = number of operations in the array (0..2), set by the harness in g_ap_n; p0/p1 the operation nodes */
+size_t g_ap_n; const cJSON *g_ap_p0, *g_ap_p1;
+#define AP_PRE(patches) (patches == NULL || (__CPROVER_is_fresh(patches, sizeof(cJSON)) && g_ap_n <= 2 && g_ap.calls == 0 && \
+    (g_ap_n == 0 ? patches->child == NULL : (__CPROVER_is_fresh(patches->child, sizeof(cJSON)) && \
+       (g_ap_n == 1 ? patches->child->next == NULL : (__CPROVER_is_fresh(patches->child->next, sizeof(cJSON)) && patches->child->next->next == NULL))))))
+#define AP_ISARR(patches) (patches != NULL && (patches->type & 0xFF) == cJSON_Array)
+#define AP_POST(object, patches, cs_) \
+  (!AP_ISARR(patches) ? (RET == 1 && g_ap.calls == __CPROVER_old(g_ap.calls)) : \
+   g_ap_n == 0 ? (RET == 0 && g_ap.calls == 0) : \
+   (g_ap.calls >= 1 && g_ap.obj[0] == object && g_ap.patch[0] == patches->child && g_ap.cs[0] == (cs_) && \
+    (g_ap.ret[0] != 0 ? (RET == g_ap.ret[0] && g_ap.calls == 1) : \
+     g_ap_n == 1 ? (RET == 0 && g_ap.calls == 1) : \
+     (g_ap.calls == 2 && g_ap.obj[1] == object && g_ap.patch[1] == patches->child->next && g_ap.cs[1] == (cs_) && RET == g_ap.ret[1]))))
+
+CJSON_PUBLIC(int) cJSONUtils_ApplyPatches(cJSON * const object, const cJSON * const patches)
+__CPROVER_requires(AP_PRE(patches))
+__CPROVER_ensures(AP_POST(object, patches, 0)) /*@C16*/
+__CPROVER_assigns(g_ap);
+CJSON_PUBLIC(int) cJSONUtils_ApplyPatchesCaseSensitive(cJSON * const object, const cJSON * const patches)
+__CPROVER_requires(AP_PRE(patches))
+__CPROVER_ensures(AP_POST(object, patches, 1)) /*@C16*/
+__CPROVER_assigns(g_ap);
+#endif /* VF_UTILS_WRAPPERS */
 #endif
